@@ -156,10 +156,10 @@ fn plain_len_offsets(plain: &[u8], v5: bool) -> Vec<usize> {
 fn is_raw_base(req: &Req) -> bool {
     req.mac_head != 0
         || req.fields.iter().any(|f| match f {
-        Fld::Raw(..) | Fld::RawAuth(..) => true,
-        Fld::Auth(_, inner) => inner.iter().any(|g| matches!(g, Fld::Raw(..))),
-        _ => false,
-    })
+            Fld::Raw(..) | Fld::RawAuth(..) => true,
+            Fld::Auth(_, inner) => inner.iter().any(|g| matches!(g, Fld::Raw(..))),
+            _ => false,
+        })
 }
 
 /// All mutations of one base (the unmutated datagram first).
@@ -340,7 +340,11 @@ fn bases(thorough: bool) -> Vec<Req> {
     }
     out.extend(raw_requests());
     // extension-field-like MAC trailers (light sweep as well)
-    out.extend(super::c16::trailer_requests().into_iter().filter(|r| r.mac_head != 0));
+    out.extend(
+        super::c16::trailer_requests()
+            .into_iter()
+            .filter(|r| r.mac_head != 0),
+    );
     out
 }
 
